@@ -52,7 +52,7 @@ for p in props:
                             "evidence_file": "evidence/%s.json" % i,
                             "replay_cmd_template": "./check %s --replay {path}" % i,
                             "engine": c.get("engine", "coq"),
-                            "level_claimed": {"category": "proof", "text": c["text"], "design_ref": "DESIGN.md §4 " + i},
+                            "level_claimed": {"category": "proof", "text": c["text"], "design_ref": "DESIGN.md §5 " + i},
                             "level_note": c["note"], "technique": c["technique"]})
     else:
         m["not_applicable"].append({"property_id": i, "reason": NA.get(i, "check not built yet at this commit (work in progress; DESIGN.md §9 build order)")})
